@@ -111,11 +111,12 @@ VARIABLES coin,      \* the network
           frame,     \* everything a signer must not touch (abstract tokens, see FrameOf)
           unlock,    \* unlock[i]: generation number of input i's unlocking script + witness
           offered,   \* history: offered[i] = keys supplied so far in passes that could sign input i
+          nouts,     \* number of outputs (matters to SIGHASH_SINGLE when the transaction is edited)
           kcReg, kcSec, kcScr, \* a long-lived keychain: registered key paths, masters whose private node
                         \* it holds, whether the redeem / witness scripts were added to it
           npass
 
-vars == <<coin, shape, signed, valid, frame, unlock, offered, kcReg, kcSec, kcScr, npass>>
+vars == <<coin, shape, signed, valid, frame, unlock, offered, nouts, kcReg, kcSec, kcScr, npass>>
 
 NIn == Len(shape)
 Ins == 1..NIn
@@ -124,7 +125,9 @@ Present(i) == {p[1] : p \in signed[i]}
 Need(i) == shape[i].m
 
 \* version, lock time, every outpoint and sequence, every output: here only their identity matters
-FrameOf(sh) == [ver |-> "v", lock |-> "l", ins |-> [i \in 1..Len(sh) |-> <<"op", i, "seq", i>>], outs |-> "outs"]
+\* (edits: what the CALLER changed since, see Edit)
+FrameOf(sh) == [ver |-> "v", lock |-> "l", ins |-> [i \in 1..Len(sh) |-> <<"op", i, "seq", i>>], outs |-> "outs",
+                edits |-> <<>>]
 
 TypeOK ==
     /\ coin \in Coins /\ shape \in Shapes /\ ShapeOK(coin, shape)
@@ -132,15 +135,17 @@ TypeOK ==
                       /\ \A p, q \in signed[i] : p[1] = q[1] => p = q
                       /\ valid[i] \in BOOLEAN /\ offered[i] \subseteq Keys
     /\ kcReg \subseteq Keys /\ kcSec \subseteq Masters /\ kcScr \in BOOLEAN /\ npass \in 0..MaxPasses
+    /\ nouts \in 0..4
 
-InitWith(c, sh) ==
-    /\ coin = c /\ shape = sh
+InitWithN(c, sh, n) ==
+    /\ coin = c /\ shape = sh /\ nouts = n
     /\ signed = [i \in 1..Len(sh) |-> {}]
     /\ valid = [i \in 1..Len(sh) |-> FALSE]
     /\ frame = FrameOf(sh)
     /\ unlock = [i \in 1..Len(sh) |-> 0]
     /\ offered = [i \in 1..Len(sh) |-> {}]
     /\ kcReg = {} /\ kcSec = {} /\ kcScr = FALSE /\ npass = 0
+InitWith(c, sh) == InitWithN(c, sh, 2)
 Init == \E c \in Coins : \E sh \in {x \in Shapes : ShapeOK(c, x)} : InitWith(c, sh)
 
 ----------------------------------------------------------------------------
@@ -222,7 +227,7 @@ SignPassWith(p, ch) ==
     /\ unlock' = [i \in Ins |-> IF i \in Touchable(p) THEN unlock[i] + 1 ELSE unlock[i]]
     /\ kcReg' = KcRegAfter(p) /\ kcSec' = KcSecAfter(p) /\ kcScr' = KcScrAfter(p)
     /\ npass' = npass + 1
-    /\ UNCHANGED <<coin, shape, frame>>
+    /\ UNCHANGED <<coin, shape, frame, nouts>>
 SignPass(p) == \E ch \in PassChoices(p, NIn) : SignPassWith(p, ch)
 
 \* what the front-end reports when the pass leaves the signers ch: the count of inputs that still
@@ -242,7 +247,44 @@ KcAdd(R, M, S) ==
     /\ npass < MaxPasses /\ R \subseteq Keys /\ M \subseteq Masters /\ S \in BOOLEAN
     /\ kcReg' = kcReg \cup R /\ kcSec' = kcSec \cup M /\ kcScr' = (kcScr \/ S)
     /\ npass' = npass + 1
-    /\ UNCHANGED <<coin, shape, signed, valid, frame, unlock, offered>>
+    /\ UNCHANGED <<coin, shape, signed, valid, frame, unlock, offered, nouts>>
+
+(* Between passes the CALLER may edit the transaction ("adjust the fee, sign    *)
+(* again").  What an edit does to the signatures already present is the       *)
+(* commitment table of TxValidate.tla (C06): a signature whose hash type       *)
+(* commits to the edited field no longer verifies - it is stale: its bytes    *)
+(* are still in the unlocking data but it does not count - and the input is   *)
+(* no longer valid; a signature that does not commit to the field survives    *)
+(* and a still-valid input must be left untouched by later passes.  An input  *)
+(* carrying stale signatures is an input "not already valid": a later pass    *)
+(* with the keys has to make it validate again, REPLACING the stale           *)
+(* signatures (NotAccumulated: never more signature items than the puzzle     *)
+(* demands).  Edits only move away from what was signed (version + 1, an      *)
+(* amount - 1, ...), never back.                                              *)
+TV == INSTANCE TxValidate WITH MaxSteps <- 0, MaxInserts <- 0, hts <- <<>>, svs <- <<>>, nops <- <<>>,
+                               sview <- <<>>, orig <- <<>>, ver <- 0, lock <- 0, ins <- <<>>, outs <- <<>>,
+                               lastval <- <<>>, steps <- 0, inserts <- 0
+SigVersionOf(i) == IF coin \in ForkIdCoins THEN "forkid"
+                   ELSE IF shape[i].kind \in WitnessKinds THEN "witness" ELSE "base"
+HashTypeOfByte(b) == IF coin \in ForkIdCoins THEN b - 64 ELSE b
+\* an edit is a field mutation record of TxValidate: [m |-> field, a |-> position (0 for version / lock time), b |-> 0]
+EditFields == {"ver", "lock", "oph", "opi", "seq", "out_amt", "out_spk", "spent_amt"}
+EditOK(x) == /\ x.m \in EditFields /\ x.b = 0
+             /\ x.m \in {"ver", "lock"} => x.a = 0
+             /\ x.m \in {"oph", "opi", "seq", "spent_amt"} => x.a \in Ins
+             /\ x.m \in {"out_amt", "out_spk"} => x.a \in 1..nouts
+GoesStale(i, sig, x) == TV!CommitsTo(i, HashTypeOfByte(sig[2]), SigVersionOf(i), x, nouts)
+Edit(x) ==
+    /\ npass < MaxPasses /\ EditOK(x)
+    /\ signed' = [i \in Ins |-> {sig \in signed[i] : ~GoesStale(i, sig, x)}]
+    /\ valid' = [i \in Ins |-> Cardinality({sig \in signed[i] : ~GoesStale(i, sig, x)}) >= Need(i)]
+    \* what counts from here on is what still verifies
+    /\ offered' = [i \in Ins |-> {sig[1] : sig \in {t \in signed[i] : ~GoesStale(i, t, x)}}]
+    /\ frame' = [frame EXCEPT !.edits = Append(@, x)]
+    /\ npass' = npass + 1
+    /\ UNCHANGED <<coin, shape, unlock, nouts, kcReg, kcSec, kcScr>>
+\* signature-shaped items (real, stale or placeholder) in the unlocking data of each input
+NotAccumulated(items) == \A i \in Ins : items[i] <= Need(i)
 
 \* the passes explored by the model-checking configurations (the replay modules choose their own)
 AllPasses == [mech : Mechs, K : SUBSET Keys, I : SUBSET Ins, ht : HashTypes, scr : BOOLEAN,
@@ -252,8 +294,10 @@ Canonical(p) == IF p.mech = "keychain" THEN p.K = {} ELSE p.reg = {} /\ p.sec = 
 \* (configurations override Passes to trade pass variety against depth)
 Passes == {p \in AllPasses : Canonical(p)}
 KcAdds == {a \in [R : {{}, Keys}, M : SUBSET Masters, S : BOOLEAN] : a.R # {} \/ a.M # {} \/ a.S}
+Edits == {x \in [m : {"lock", "seq", "out_amt", "spent_amt"}, a : 0..2, b : {0}] : EditOK(x)}
 Next == \/ \E p \in Passes : SignPass(p)
         \/ \E a \in KcAdds : KcAdd(a.R, a.M, a.S)
+        \/ \E x \in Edits : Edit(x)
 Spec == Init /\ [][Next]_vars
 
 ----------------------------------------------------------------------------
@@ -275,9 +319,15 @@ OutcomesCharacterized ==
     \A p \in Passes : \A i \in Ins : Outcomes(p, i) = {S \in SUBSET Keys : IsOutcome(p, i, S)}
 
 \* action properties
-Monotone == [][\A i \in Ins : signed[i] \subseteq signed'[i] /\ (valid[i] => valid'[i])]_vars
-ValidUntouched == [][\A i \in Ins : valid[i] => signed'[i] = signed[i] /\ unlock'[i] = unlock[i]]_vars
-FrameKept == [][frame' = frame /\ shape' = shape /\ coin' = coin]_vars
+\* (a step that leaves the frame alone is a step of the signer / the keychain; the caller's edits change it)
+Monotone == [][frame' = frame => \A i \in Ins : signed[i] \subseteq signed'[i] /\ (valid[i] => valid'[i])]_vars
+ValidUntouched == [][frame' = frame => \A i \in Ins : valid[i] => signed'[i] = signed[i] /\ unlock'[i] = unlock[i]]_vars
+\* whoever adds a signature leaves the frame alone; nobody touches shape, coin, the number of outputs
+FrameKept == [][/\ shape' = shape /\ coin' = coin /\ nouts' = nouts
+                /\ (\E i \in Ins : ~(signed'[i] \subseteq signed[i])) => frame' = frame
+                /\ frame' # frame => unlock' = unlock /\ \A i \in Ins : signed'[i] \subseteq signed[i]]_vars
+\* an edit never makes an input valid, and a valid input stays valid iff all its signatures survive
+EditOnlyLoses == [][frame' # frame => \A i \in Ins : (valid'[i] => valid[i]) /\ (valid[i] /\ signed'[i] = signed[i] => valid'[i])]_vars
 \* an input outside the asked set keeps its unlocking data
 UnaskedUntouched == [][\A i \in Ins : unlock'[i] # unlock[i] => ~valid[i]]_vars
 =============================================================================
